@@ -282,22 +282,51 @@ def run(repo, tier):
 
     tl = repo.func(rel, "Expr._two_level_intkey")
     n_tl = 0
+    leaf_kinds, inner_excludes = set(), []
     for p in enumerate_paths(tl):
         if p.exit != "return" or p.exit_node.value is None:
             continue
         n_tl += 1
         v = p.exit_node.value
         conds = [(norm_src(e.node), e.pol) for e in p.events if e.kind == "test"]
-        leaf = any(pol and "self.kind in" in t and "symbol" in t for t, pol in conds)
+        # which kinds can take this path?  tests of self.kind against constants, with their polarity on the path
+        pos, neg = None, set()
+        for e in p.events:
+            if e.kind != "test":
+                continue
+            t_ = e.node
+            pol = e.pol
+            while isinstance(t_, ast.UnaryOp) and isinstance(t_.op, ast.Not):
+                t_, pol = t_.operand, not pol
+            if not (isinstance(t_, ast.Compare) and len(t_.ops) == 1 and dotted(t_.left) == "self.kind"):
+                continue
+            c_ = t_.comparators[0]
+            if isinstance(c_, (ast.Set, ast.Tuple, ast.List)) and all(isinstance(x, ast.Constant) for x in c_.elts):
+                ks = {x.value for x in c_.elts}
+            elif isinstance(c_, ast.Constant):
+                ks = {c_.value}
+            else:
+                continue
+            if isinstance(t_.ops[0], (ast.NotIn, ast.NotEq)):
+                pol = not pol
+            elif not isinstance(t_.ops[0], (ast.In, ast.Eq)):
+                continue
+            if pol:
+                pos = ks if pos is None else pos & ks
+            else:
+                neg |= ks
+        LEAF = {"symbol", "constant"}
+        here = None if pos is None else pos - neg
+        leaf = here is not None and here and here <= LEAF
         if leaf:
-            kinds = None
-            for e in p.events:
-                if e.kind == "test" and isinstance(e.node, ast.Compare) and isinstance(e.node.comparators[0], ast.Set):
-                    kinds = {x.value for x in e.node.comparators[0].elts if isinstance(x, ast.Constant)}
+            leaf_kinds |= here
             ok_leaf = isinstance(v, ast.Tuple) and [dotted(x) for x in v.elts] == ["self.kind", "self.intkey"]
-            r.ob("R7.2", "expr.py::Expr._two_level_intkey leaf", ok_leaf, f"leaf two-level key is `{norm_src(v)}`", loc(rel, v))
-            r.ob("R7.2", "expr.py::Expr._two_level_intkey leaf kinds", kinds == {"symbol", "constant"}, f"leaf kinds are {kinds}: kinds whose operands are not expressions must use their own intkey", loc(rel, v))
+            r.ob("R7.2", f"expr.py::Expr._two_level_intkey leaf {sorted(here)}", ok_leaf,
+                 f"the two-level key of a {'/'.join(sorted(here))} operand is `{norm_src(v)}`; it must be (self.kind, self.intkey): the intkey is what tells apart two leaves of the same "
+                 "name or value and different type", loc(rel, v))
             continue
+        if here is None:
+            inner_excludes.append(set(neg))
         # inner node: the key must contain the kind and the intkey of EVERY operand, in order
         has_kind = isinstance(v, ast.Tuple) and v.elts and dotted(v.elts[0]) == "self.kind"
         all_ops = False
@@ -328,6 +357,9 @@ def run(repo, tier):
              "operands that do not reach the key make structurally different parents register under the same key", loc(rel, v))
     if n_tl < 2:
         raise AnalysisError("Expr._two_level_intkey: fewer than two return paths")
+    covered = leaf_kinds | (set.intersection(*inner_excludes) if inner_excludes else set())
+    r.ob("R7.2", "expr.py::Expr._two_level_intkey leaf kinds", leaf_kinds == {"symbol", "constant"} and covered >= {"symbol", "constant"},
+         f"kinds keyed by their own intkey are {sorted(leaf_kinds)}: kinds whose operands are not expressions (symbol, constant) must use their own intkey, all others their operands'", loc(rel, tl))
 
     # ---- key / intkey properties return the private fields set by the two setters
     for prop, field in (("key", "__serialized"), ("intkey", "__serialize_id")):
